@@ -2,22 +2,94 @@
 
 Theorems (Props/C07.v): every tensor-producing runtime operation of the model only ALLOCATES
 (existing heap objects are untouched): fresh_ops_frame; the compiler-side name of a tensor
-spells its active ranks (TensorSM).  Tie: kernel-evaluated post-condition on the final state
-of every execution of the C01-C05 populations: (a) every variable spelled <Name>_<Ranks>[_flat]
-that is bound holds a tensor whose rank ids concatenate to <Ranks>; (b) each Einsum's result is
-bound to <Out>_<declared-or-rank-order ranks>, with those rank ids, equal to the oracle in
-original coordinates; (c) every input variable still holds a tensor with the same rank ids and
-the same data as before the run."""
+spells its active ranks (TensorSM); and the CERTIFIED STATIC CHECKER of the data-independent half
+(Model/RankTy.v, C07_rankty_sound): on the abstract rank-id semantics of emitted programs (all
+paths, any number of loop iterations) an accepted program never renames a user-supplied tensor
+object in place, never populates / updates user-supplied data, and ends with every
+<Name>_<Ranks> variable holding a tensor whose rank ids spell <Ranks>, every input and result
+variable bound with exactly its declared-or-rank-order ranks.
+
+Ties evaluated on every run:
+ (static)  `rankty_report ctx program` is evaluated by the kernel on EVERY emitted program of the
+           populations, before and independently of execution; ctx (inputs, API names, other user
+           names, tensor-named identifiers, required results) comes from the specification alone
+           (tools/rankty.py).  A rejection is a broken obligation: the executions of that program
+           (the regular one and further generated inputs) are searched for a concrete failing final
+           state, which becomes the replay; otherwise the violation is reported with
+           no-failing-input-found.  The same checker is pointed at graphics-mode and metrics-mode
+           programs (static only).
+ (dynamic) kernel-evaluated post-condition on the final state of every execution of the C01-C05
+           populations: (a) every variable spelled <Name>_<Ranks>[_flat] that is bound holds a tensor
+           whose rank ids concatenate to <Ranks>; (b) each Einsum's result is bound to
+           <Out>_<declared-or-rank-order ranks>, with those rank ids, equal to the oracle in original
+           coordinates; (c) every input variable still holds a tensor with the same rank ids and the
+           same data as before the run.
+ (model)   the abstract semantics is trusted; it is tied to the concrete interpreter: for every
+           executed case the rank ids it predicts for the tensor-named variables of the final state
+           must be those Model/Interp.v reports (must-bound: equal; may-bound: unbound or equal;
+           unbound: unbound).  A disagreement is reported as `rankty-model-mismatch` - it means the
+           abstract semantics is wrong, not the compiler."""
 import specgen
 import specgen_wide
 import runlib
 import execlib
 import popgen
+import rankty
 
 LEVEL = "translation_validation"
 
+TIE_IMPORTS = ["TV.Model.RankTyTie"]
 
-def run(ctx):
+
+def report_expr(term):
+    return "(report_c07 %s)" % term
+
+
+def verdict_class(r):
+    """structural class of a static rejection (for known-finding keys)"""
+    v = r["verdict"]
+    if v == "BAD":
+        d = r["detail"]
+        for key, cls in (("setRankIds renames a user-supplied", "renames-user-input"),
+                         ("populates a fiber of a user-supplied", "populates-user-input"),
+                         ("creates payloads in a user-supplied", "populates-user-input"),
+                         ("updates a payload of a user-supplied", "updates-user-input"),
+                         ("not a permutation", "swizzle-not-a-permutation"),
+                         ("wrong number of ranks", "rename-wrong-arity"),
+                         ("depth out of range", "depth-out-of-range"),
+                         ("differs between paths", "path-dependent-value"),
+                         ("no loop invariant", "no-invariant"),
+                         ("cannot be joined", "no-join")):
+            if key in d:
+                return cls
+        return "outside-modelled-subset"
+    return {"NAME": "name-lies", "MISSING": "result-or-input-not-bound", "UNBOUND": "unbound-read",
+            "UNTRANSLATABLE": "not-python-subset", "SYNTAXERROR": "not-python"}.get(v, v)
+
+
+def compare_final(static, concrete):
+    """static: {name: ('U',)|('M'|'m', ids)|('T',)|('N',)|('D',)}, concrete: {name: ('U',)|('M', ids)|('N',)} -> list of mismatches"""
+    bad = []
+    for n, a in static.items():
+        if n not in concrete:
+            continue
+        c = concrete[n]
+        if a[0] == "U":
+            ok = c[0] == "U"
+        elif a[0] == "M":
+            ok = c[0] == "M" and c[1] == a[1]
+        elif a[0] == "m":
+            ok = c[0] == "U" or (c[0] == "M" and c[1] == a[1])
+        elif a[0] == "N":
+            ok = c[0] in ("N", "U")
+        else:
+            ok = True                      # T / D: the checker claims nothing
+        if not ok:
+            bad.append("%s: predicted %s, executed %s" % (n, a, c))
+    return bad
+
+
+def gather(ctx):
     rng = ctx.rng
     q = ctx.quick()
     pops = []
@@ -33,7 +105,44 @@ def run(ctx):
     pops += list(specgen_wide.wide_items(rng, 250 if q else 2000, flatten_p=0.6, occ_flat_p=0.45, concordant_p=0.4))
     # two partitioned Einsums over the same rank names in one specification (the second may read the first one's result)
     pops += list(specgen_wide.wide_pairs(rng, 60 if q else 500))
+    return pops
+
+
+def gather_static_only(ctx):
+    """graphics-mode and metrics-mode programs (and index math): the static checker only"""
+    rng = ctx.rng
+    q = ctx.quick()
+    base = list(popgen.plain(rng, 30 if q else 300)) + list(popgen.shape(rng, 30 if q else 300)) + list(popgen.occupancy(rng, 50 if q else 500))
+    pops = list(popgen.with_spacetime(rng, base))
+    pops += list(popgen.affine(rng, 40 if q else 400)) + list(popgen.affine_occ(rng, 20 if q else 200))
+    pops += popgen.accelerators()
+    pops += list(popgen.compute_only(rng, 15 if q else 150))
+    return pops
+
+
+def make_case(spec, text, it, rng):
+    nr = len(set(r for rs in spec.decl.values() for r in rs))
+    ext = runlib.default_extents(spec, rng, 1, 6 if nr <= 3 else (4 if nr == 4 else 3))
+    data, scal = runlib.gen_inputs(spec, ext, rng, density=rng.choice([1.0, 0.6]))
+    return execlib.Case(spec, text, ext, data, scal, extra_ints=it["syms"], meta={"kind": it["kind"]})
+
+
+def concrete_failure(c):
+    """what is wrong with the final state of an executed case (None: nothing)"""
+    r = c.result
+    if r is None:
+        return "not executed"
+    if r["status"] != "RAN":
+        return "program cannot be executed: %s" % r.get("err", r["status"])
+    bad = [k + "=" + r[k][:120] for k in ("names", "inp", "out") if r[k] != "OK"]
+    return "; ".join(bad) if bad else None
+
+
+def run(ctx):
+    rng = ctx.rng
+    pops = gather(ctx)
     cases = []
+    progs = []            # every compiled program (also the ones execution skips): static checker
     stats = {"by_kind": {}, "rejected": 0, "naming": {}, "features": {}}
     for it in pops:
         try:
@@ -42,6 +151,7 @@ def run(ctx):
         except Exception:
             stats["rejected"] += 1
             continue
+        progs.append((spec, text, it))
         if any(specgen.take_selected_lacks_rank(s) for s in spec.structs):
             continue
         stats["by_kind"][it["kind"]] = stats["by_kind"].get(it["kind"], 0) + 1
@@ -50,13 +160,52 @@ def run(ctx):
         for k, v in (it.get("features") or {}).items():
             if k != "naming" and v:
                 stats["features"][k] = stats["features"].get(k, 0) + 1
-        nr = len(set(r for rs in spec.decl.values() for r in rs))
-        ext = runlib.default_extents(spec, rng, 1, 6 if nr <= 3 else (4 if nr == 4 else 3))
-        data, scal = runlib.gen_inputs(spec, ext, rng, density=rng.choice([1.0, 0.6]))
-        cases.append(execlib.Case(spec, text, ext, data, scal, extra_ints=it["syms"], meta={"kind": it["kind"]}))
-    execlib.evaluate(cases, "c07")
+        cases.append(make_case(spec, text, it, rng))
+
+    # ---- static: the certified checker on every program, before / independently of execution ----------------------
+    extra = []
+    for it in gather_static_only(ctx):
+        try:
+            spec = runlib.Spec(it["yaml"])
+            text = spec.compile(arch=it.get("arch", False))
+        except Exception:
+            continue
+        extra.append((spec, text, it))
+    allp = progs + extra
+    sres = rankty.analyse([(s, t, it.get("syms") or {}) for s, t, it in allp], "c07s", shard=20)
+    static_of = {}
+    sstat = {"programs": len(progs), "accepted": 0, "rejected": {}, "extra_modes": {"programs": len(extra), "accepted": 0, "unbound_read_c06": 0, "rejected": {}}}
+    rejected = []
+    for k, ((spec, text, it), r) in enumerate(zip(allp, sres)):
+        main = k < len(progs)
+        if main:
+            static_of[text] = r
+        tgt = sstat if main else sstat["extra_modes"]
+        if r["verdict"] == "OK":
+            tgt["accepted"] += 1
+            continue
+        cls = verdict_class(r)
+        if not main and r["verdict"] == "UNBOUND":
+            tgt["unbound_read_c06"] += 1       # a definitely-unbound name is read: C06's subject (F5b / F6), nothing to say about C07
+            continue
+        tgt["rejected"][cls] = tgt["rejected"].get(cls, 0) + 1
+        rejected.append((spec, text, it, r, cls, main))
+
+    # ---- dynamic: execution of every case, with the rank ids of the tensor-named variables -------------------------
+    # further inputs for statically rejected programs: the search for a concrete failing final state
+    search = []
+    for spec, text, it, r, cls, main in rejected:
+        if any(specgen.take_selected_lacks_rank(s) for s in spec.structs):
+            continue
+        for _ in range(3):
+            c = make_case(spec, text, it, rng)
+            c.meta["search_for"] = cls
+            search.append(c)
+    execlib.evaluate(cases + search, "c07", expr_fn=report_expr, imports=TIE_IMPORTS)
+
     bad = 0
     names_checked = 0
+    compared = 0
     for c in cases:
         r = c.result
         names_checked += len([n for n in (c.names or []) if runlib.NAME_RE.match(n)])
@@ -74,26 +223,80 @@ def run(ctx):
             bad += 1
             kind = "result-wrong-name-or-ranks" if ("NOTENSOR" in r["out"] or "RANKIDS" in r["out"]) else "result-wrong-coordinates-or-values"
             ctx.violation({"kind": kind}, "result not bound under its declared name / rank order / original coordinates: %s" % r["out"][:300], c.replay())
+        # the abstract semantics' prediction against the concrete interpreter
+        st = static_of.get(c.text)
+        if st is not None and st.get("final") and len(r["extra"]) >= 2:
+            conc = rankty.parse_final(r["extra"][1], c.names)
+            compared += len([n for n in st["final"] if n in conc])
+            mm = compare_final(st["final"], conc)
+            if mm:
+                bad += 1
+                rep = c.replay()
+                rep["static"] = st["raw"]
+                ctx.violation({"kind": "rankty-model-mismatch"},
+                              "the abstract rank-id semantics (Model/RankTy.v) predicts other rank ids than the interpreter reports - the MODEL is wrong: %s" % "; ".join(mm[:4]), rep)
+
+    # ---- a static rejection is a broken obligation -----------------------------------------------------------------
+    by_text = {}
+    for c in cases + search:
+        by_text.setdefault(c.text, []).append(c)
+    for spec, text, it, r, cls, main in rejected:
+        bad += 1
+        witness = None
+        for c in by_text.get(text, []):
+            why = concrete_failure(c)
+            if why is not None and why != "not executed":
+                witness = (c, why)
+                break
+        what = "the certified rank-id checker rejects the emitted program (%s mode, %s): %s %s" % (
+            "plain" if main else it["kind"], cls, r["verdict"], r["detail"])
+        key = {"kind": "rankty-rejected", "class": cls, "mode": "plain" if main else it["kind"].split(":")[0].split("+")[-1]}
+        if witness is not None:
+            rep = witness[0].replay()
+            rep["static"] = r.get("raw", r["detail"])
+            ctx.violation(key, what + " -- and an execution ends in a final state that violates the property: " + witness[1], rep)
+        else:
+            ctx.violation(key, what, {"yaml": spec.yaml, "text": text, "static": r.get("raw", r["detail"]), "arch": bool(it.get("arch"))}, no_input=True)
+
     distinct = len(set(c.text for c in cases))
+    sstat["predictions_compared_with_interpreter"] = compared
     ctx.coverage.update({
-        "programs": distinct, "executions": len(cases), "disagreements_checked": bad, "evaluations": len(cases), "distinct_nontrivial": distinct,
+        "programs": distinct, "executions": len(cases), "disagreements_checked": bad, "evaluations": len(cases) + len(allp) + len(search), "distinct_nontrivial": distinct,
         "population": stats, "tensor_named_variables_checked": names_checked,
-        "rule": "populations of C01 (plain), C02 (shape), C03 (occupancy/flatten, base and wide), C05 (cascades), half of them with ranks renamed into a wide pool of names; one execution each; every <Name>_<Ranks> variable, every input and every result checked on the final state",
-        "samples": [{"yaml": cases[0].spec.yaml, "result": cases[0].raw, "names": [n for n in cases[0].names if runlib.NAME_RE.match(n)]}],
-        "trusted_base": ["Coq 8.16.1 kernel + VM", "Model/Rt.v + Model/Interp.v + Model/Harness.v check_name/check_input/check_out", "tools/py2coq.py", "Model/Einsum.v"],
+        "static_checker": sstat,
+        "rule": "populations of C01 (plain), C02 (shape), C03 (occupancy/flatten, base and wide), C05 (cascades), half of them with ranks renamed into a wide pool of names; "
+                "every program: one kernel evaluation of the certified rank-id checker (plus graphics-mode / metrics-mode / index-math programs, static only); "
+                "one execution each: every <Name>_<Ranks> variable, every input and every result checked on the final state, and the checker's predicted rank ids compared with the interpreter's",
+        "samples": [{"yaml": cases[0].spec.yaml, "result": cases[0].raw, "static": static_of[cases[0].text]["raw"],
+                     "names": [n for n in cases[0].names if runlib.NAME_RE.match(n)]}],
+        "trusted_base": ["Coq 8.16.1 kernel + VM", "Model/Rt.v + Model/Interp.v + Model/Harness.v check_name/check_input/check_out", "tools/py2coq.py", "Model/Einsum.v",
+                         "Model/RankTy.v: the abstract rank-id semantics `sem` / `step` (what each statement form does to tensor objects), tied to Model/Interp.v by the prediction comparison",
+                         "tools/rankty.py: the checker's context (inputs, API names, tensor-named identifiers, required results) from the specification alone"],
     })
 
 
 def replay(ctx, rep):
     r = rep["replay"]
     spec = runlib.Spec(r["yaml"])
-    text = spec.compile()
-    data = {t: {tuple(int(x) for x in k.split(",") if x != ""): v for k, v in d.items()} for t, d in r["inputs"].items()}
-    c = execlib.Case(spec, text, r["extents"], data, r["scalars"], extra_ints=r.get("extra_ints"))
-    execlib.evaluate([c], "c07r")
+    text = spec.compile(arch=bool(r.get("arch")))
     print(text)
-    print("result:", c.raw)
-    if c.raw != "RAN;OK;OK;OK":
+    st = rankty.analyse([(spec, text, r.get("extra_ints") or {})], "c07rs")[0]
+    print("static:", st["verdict"], st["detail"], st.get("raw", ""))
+    rc = 0
+    if st["verdict"] != "OK" and not (st["verdict"] == "UNBOUND" and r.get("arch")):
+        rc = 1
+    if "inputs" in r:
+        data = {t: {tuple(int(x) for x in k.split(",") if x != ""): v for k, v in d.items()} for t, d in r["inputs"].items()}
+        c = execlib.Case(spec, text, r["extents"], data, r["scalars"], extra_ints=r.get("extra_ints"))
+        execlib.evaluate([c], "c07r", expr_fn=report_expr, imports=TIE_IMPORTS)
+        print("result:", c.raw)
+        if not c.raw.startswith("RAN;OK;OK;OK"):
+            rc = 1
+        elif st.get("final"):
+            mm = compare_final(st["final"], rankty.parse_final(c.result["extra"][1], c.names))
+            if mm:
+                print("model mismatch:", mm)
+                rc = 1
+    if rc:
         print("VIOLATION property=C07 replay=<given file>")
-        return 1
-    return 0
+    return rc
